@@ -128,12 +128,12 @@ def two_pending(dwords):
     return False
 
 
-def harness_line(toks, dwords, wd):
+def harness_line(toks, dwords, wd, op="life"):
     ht = []
     for t, w in zip(toks, dwords):
         ht.append(t.upper() if w.endswith(":d") else t)
     ht += toks[len(dwords):]
-    return "life %d %s" % (wd, " ".join(ht))
+    return "%s %d %s" % (op, wd, " ".join(ht))
 
 
 def run_parallel(binary, lines, chunk=150, stop_after=None):
@@ -292,7 +292,11 @@ def clauses(ev):
 # ------------------------------------------------------------------ free-running runs
 
 def gen_free(g, n):
-    lines = []
+    # one long epoch in every run (class r of DEEPEN.md: the whole range of the counter's type — a step counter
+    # narrowed to 16 bits wraps after 65536 steps of one epoch; step numbers must keep counting)
+    lines = ["free %d %d r j" % (WD_RERUN, 65536 + 4)]
+    if n > 500:
+        lines.append("free %d %d r z50 s j" % (WD_RERUN, 2 * 65536 + 3))
     for i in range(n):
         toks = []
         style = g.r.choice(["teardown", "teardown", "expire", "reboot-run", "early-teardown"])
@@ -428,8 +432,10 @@ def run(ctx):
     have6 = not probe[0].startswith("b1:nohook")
     if have6:
         scheds += gen_split_reboot()
+    rp_sis = False
     if ctx.replay:
         rp = json.load(open(ctx.replay))["replay"]
+        rp_sis = bool(rp.get("sis"))
         toks = rp["schedule"].split()
         d = vlib.run_driver(["life cur " + " ".join(toks)])[0].split()
         hang = d[-1].endswith(":hang")
@@ -525,6 +531,43 @@ def run(ctx):
                  "outA>preFinal", "outB>outD", "outB>outC", "outC>outD", "outC>preFinal", "outD>top", "outD>preFinal", "preFinal>done"]
     missing_edges = [e for e in all_edges if e not in edges]
 
+    # the same schedules on a real bfl::SIS (its filtering_step() consults step_number(): model `sisPredicts`):
+    # which steps carry out a prediction is compared word by word (event P between S<k> and E<k>)
+    sis_cases = [c for c in ok_cases if c["kind"].startswith(("corpus", "exh:run2:k0", "exh:run2:k1", "exh:run0:k1", "rand"))
+                 and not any(t in ("b1", "b2", "F") for t in c["toks"])]
+    sis_cases = sis_cases[:ctx.n(500, 4000)] if not ctx.replay else ([c for c in ok_cases][:1] if rp_sis else [])
+    sis_mism, sis_pred, sis_nopred = [], 0, 0
+    if sis_cases and not (confirmed or prop_bad):
+        sd = vlib.run_driver(["lifesis cur " + " ".join(c["toks"]) for c in sis_cases])
+        sdw = [["hang" if w.endswith(":hang") else w for w in d.split()] for d in sd]
+        souts, slogs = run_parallel(binary, [harness_line(c["toks"], dw, c["wd"], "lifesis") for c, dw in zip(sis_cases, sdw)])
+        logs.update({("sis", k): v for k, v in slogs.items()})
+        for c, dw, h in zip(sis_cases, sdw, souts):
+            if h == "skipped":
+                continue
+            hw = norm(h.split())
+            for w in hw:
+                f = w.split(":")
+                if len(f) >= 5:
+                    for e in f[1].split("."):
+                        if e[0] == "E":
+                            sis_nopred += 1
+                    sis_pred += f[1].split(".").count("P")
+            if hw != dw:
+                sis_mism.append((c, dw, hw))
+        sis_nopred -= sis_pred
+        sis_mism.sort(key=lambda x: len(x[0]["toks"]))
+        for c, dw, hw in sis_mism[:1]:
+            again, _ = vlib.run_harness(binary, [harness_line(c["toks"], dw, WD_RERUN if c["wd"] == WD_OK else c["wd"], "lifesis")])
+            aw = norm(again[0].split())
+            if aw != dw:
+                j = next((i for i, (a, b) in enumerate(zip(aw + ["<end>"] * 200, dw + ["<end>"] * 200)) if a != b), -1)
+                ctx.violation("correspondence:sis-step-number",
+                              "model and a real bfl::SIS disagree on %d schedule(s) (which steps predict / epoch events); shortest: boot %s — word %d: "
+                              "implementation `%s`, model `%s`" % (len(sis_mism), " ".join(c["toks"]), j, (aw + ["<end>"] * 200)[j], (dw + ["<end>"] * 200)[j]),
+                              {"harness": "h_life", "schedule": " ".join(c["toks"]), "input_line": harness_line(c["toks"], dw, c["wd"], "lifesis"),
+                               "observed": " ".join(aw), "model": " ".join(dw), "sis": True})
+
     # free-running real-thread runs: the clauses evaluated on wall-clock interleavings
     flines = gen_free(ctx.gen("free"), ctx.n(160, 1500))
     if ctx.replay or confirmed or prop_bad:
@@ -567,6 +610,8 @@ def run(ctx):
         "abstract_states_visited_on_impl": len(states),
         "program_counters_visited_on_impl": pcs,
         "control_edges_visited_on_impl": edges, "control_edges_not_visited": missing_edges,
+        "sis_schedules_compared": len(sis_cases), "sis_disagreements": len(sis_mism),
+        "sis_steps_with_prediction": sis_pred, "sis_steps_without_prediction_first_of_epoch": sis_nopred,
         "deferred_commands_checked": sum(1 for c in ok_cases for w in c["dwords"] if w.endswith(":d")),
         "sanitizer_crashes": crashes + len(logs) + len(flogs), "schedules_skipped_after_early_stop": skipped,
     })
